@@ -136,8 +136,49 @@ def b_two(ch):
     return st
 
 
+def b_big(ch):
+    """beyond the small scope: 10 / 30 / 60 nuclides on a card continued over many lines, material numbers with
+    2 - 6 digits, a dozen materials in one deck"""
+    n = ch.choose('nuclides', [10, 30, 60], free=True)
+    mnum = ch.choose('material-number', [1, 99, 100, 4321, 123456], free=True)
+    sign = ch.choose('sign', ['+', '-'], free=True)
+    rho = ch.choose('rho', ['-2.5', '0.05'], free=True)
+    wrap = ch.choose('wrap', [70, 30, 0], free=True)
+    others = ch.choose('other-materials', [0, 11], free=True)
+    zs = [1 + (7 * i) % 98 for i in range(n)]
+    entries = [(z, typical_a(z), ('-' if sign == '-' else '') + repr(round(0.5 + 0.25 * (i % 5), 3))) for i, z in enumerate(zs)]
+    st = St('c10 big')
+    st.entries, st.rho = entries, rho
+    card = 'm%d %s' % (mnum, ' '.join('%d%03d %s' % e for e in entries))
+    if wrap:
+        words, lines, cur = card.split(' '), [], ''
+        for w in words:
+            if cur and len(cur) + 1 + len(w) > wrap:
+                lines.append(cur); cur = w
+            else:
+                cur = (cur + ' ' + w) if cur else w
+        lines.append(cur)
+        card = '\n     '.join(lines)
+    st.cells = ['1 %d %s -1 imp:n=1' % (mnum, rho), '2 0 1 imp:n=1']
+    st.surfs = ['1 so 5']
+    st.data = [card]
+    st.multi = [(1, entries, rho)]
+    for k in range(others):
+        # further materials, each used by a shell
+        mk = mnum + 1 + 3 * k
+        e = [(26, 54 + (k % 4), '1'), (8, 16, repr(1.0 + k))]
+        st.data.insert(k % 2 * len(st.data), 'm%d %s' % (mk, ' '.join('%d%03d %s' % x for x in e)))
+        st.cells.insert(1 + k, '%d %d -7.8 %d -%d imp:n=1' % (10 + k, mk, 1 + k, 2 + k))
+        st.surfs.append('%d so %d' % (2 + k, 6 + k))
+        st.multi.append((10 + k, e, '-7.8'))
+    if others:
+        st.cells[-1] = '2 0 %d imp:n=1' % (1 + others)
+    return st
+
+
 def scenarios(tier):
-    return [Scn('zaid', b_zaid, None, None, 'all Z x 4 mass numbers'),
+    return [Scn('big', b_big, None, None, 'long cards, large material numbers, a dozen materials'),
+            Scn('zaid', b_zaid, None, None, 'all Z x 4 mass numbers'),
             Scn('two-materials', b_two, None, None, 'two cards, coinciding or different cell densities, other M* cards / comments / continuations around them'),
             Scn('forms', b_forms, 5 if tier == 'quick' else 7, 7, 'suffixes, keywords, counts, spellings, signs, densities')]
 
